@@ -156,7 +156,12 @@ def _jac_task(task, out):
         variants = [("conv", (1, 2, 3, 3), True), ("conv", (2, 2, 2, 3), False), ("conv", (2, 3, 3), True),  # the last one is an un-batched (C,H,W) input
                     ("conv_reflect", (1, 2, 3, 3), True)]
     for mk, xshape, bias in variants:
-        for frozen in (False, True, "reloaded"):
+        if task["a"]:
+            _calib_interleaved(task, out, mk, xshape, bias)
+        for frozen in (False, True, "reloaded", "eval"):
+            # "eval": an unfrozen module switched to eval() mode still trains its float weights (fine-tuning with frozen statistics)
+            eval_mode = frozen == "eval"
+            frozen = False if eval_mode else frozen
             fm = _mk_linear(dt, bias) if mk == "lin" else _mk_conv(dt, bias, "reflect" if mk == "conv_reflect" else "zeros")
             qm = _quantize_single(fm, wname, aname)
             x0 = _input(xshape, dt)
@@ -174,6 +179,8 @@ def _jac_task(task, out):
                 qm2 = _quantize_single(fm, wname, aname)
                 nn.Sequential(qm2).load_state_dict(sd, assign=True)
                 qm = qm2
+            if eval_mode:
+                qm.eval()
             K = fm.weight.numel() // fm.weight.shape[0]
             try:
                 xt = x0.clone().requires_grad_(True)
@@ -182,10 +189,10 @@ def _jac_task(task, out):
             except Exception as e:  # noqa
                 continue
             for gname, g, exact in _grads_for(shape_out, dt):
-                c = [mk, list(xshape), bias, frozen, gname]
+                c = [mk, list(xshape), bias, "eval" if eval_mode else frozen, gname]
                 if only and only != c:
                     continue
-                fields = {"kind": task["kind"], "weights": wname, "activations": aname, "dtype": dtname, "frozen": str(frozen), "grad": gname.rstrip("0123456789"), "rank": len(xshape)}
+                fields = {"kind": task["kind"], "weights": wname, "activations": aname, "dtype": dtname, "frozen": "eval" if eval_mode else str(frozen), "grad": gname.rstrip("0123456789"), "rank": len(xshape)}
                 case = dict(task, only=c)
                 journal(repr(case))
                 out["evals"] += 1
@@ -227,6 +234,65 @@ def _jac_task(task, out):
                 for m in msgs:
                     if m:
                         out["violations"].append(violation(PID, case, dict(fields, sub=m.split(":")[0]), f"{m} ({c} w={wname} a={aname} {dtname})"))
+
+
+def _calib_interleaved(task, out, mk, xshape, bias):
+    """Training inside a Calibration context with two forwards of the same module (batches of different range) before the backward
+    of the first one (gradient accumulation, a shared module): the gradients of the first forward must be those of the float twin
+    evaluated with the activation scale that forward used - whatever the second forward did to the module's scale buffers."""
+    from optimum.quanto import Calibration, QBytesTensor
+
+    dtname, wname, aname = task["dt"], task["w"], task["a"]
+    dt = num.DTYPES[dtname]
+    u = num.UNIT[dtname]
+    only = task.get("only")
+    for mom in (0.5, 0.9):
+        for factor in (8.0, 0.125):
+            c = [mk, list(xshape), bias, "calib2", mom, factor]
+            if only and only != c:
+                continue
+            fields = {"kind": task["kind"], "weights": wname, "activations": aname, "dtype": dtname, "frozen": "calib2", "grad": "ones", "rank": len(xshape)}
+            case = dict(task, only=c)
+            journal(repr(case))
+            out["evals"] += 1
+            out["calls"] += 2
+            out["points"] += 1
+            out["nontrivial"] += 1
+            fm = _mk_linear(dt, bias) if mk == "lin" else _mk_conv(dt, bias, "reflect" if mk == "conv_reflect" else "zeros")
+            qm = _quantize_single(fm, wname, aname)
+            x0 = _input(xshape, dt)
+            K = fm.weight.numel() // fm.weight.shape[0]
+            try:
+                xq = x0.clone().requires_grad_(True)
+                with Calibration(momentum=mom, streamline=False):
+                    y1 = qm(xq)
+                    s_in = qm.input_scale.detach().clone()
+                    s_keep = (qm.input_scale, qm.output_scale)
+                    y2 = qm((x0 * factor).clone().requires_grad_(True))
+                    y1d = y1.dequantize() if isinstance(y1, QBytesTensor) else y1
+                    g = torch.ones_like(y1d)
+                    y1d.backward(g)
+                del y2
+            except Exception as e:  # noqa
+                out["violations"].append(violation(PID, case, dict(fields, sub="backward_raised"), f"backward_raised: {c} w={wname} a={aname} {dtname}: {type(e).__name__}: {str(e)[:200]}"))
+                continue
+            try:
+                after = qm.input_scale
+                qm.input_scale = s_in
+                xt = x0.clone().requires_grad_(True)
+                yt, w_leaf, b_leaf = _twin_forward(qm, fm, xt, aname)
+                yt.backward(torch.ones_like(yt))
+                qm.input_scale = after
+            except Exception:
+                out["counters"]["twin_backward_unsupported"] = out["counters"].get("twin_backward_unsupported", 0) + 1
+                continue
+            msgs = [_cmp(xq.grad, xt.grad, False, K, u, "grad_input"),
+                    _cmp(qm.weight.grad, w_leaf.grad, False, xq.numel() // K if mk == "lin" else xq.numel(), u, "grad_weight")]
+            if bias:
+                msgs.append(_cmp(qm.bias.grad, b_leaf.grad, False, yt.numel(), u, "grad_bias"))
+            for m in msgs:
+                if m:
+                    out["violations"].append(violation(PID, case, dict(fields, sub=m.split(":")[0]), f"{m} (two forwards inside Calibration, backward of the first: {c} w={wname} a={aname} {dtname})"))
 
 
 def _ladder_task(task, out):
